@@ -4,6 +4,7 @@ package checks
 
 import (
 	"bytes"
+	"encoding/hex"
 	"fmt"
 	"strings"
 	"testing"
@@ -13,6 +14,7 @@ import (
 	"github.com/massnetorg/mass-core/massutil"
 	"github.com/massnetorg/mass-core/txscript"
 	"github.com/massnetorg/mass-core/wire"
+	pb "massnet.org/mass-wallet/api/proto"
 	"pgregory.net/rapid"
 	"verifharness/ev"
 	"verifharness/sim"
@@ -258,7 +260,31 @@ func propC03(t *rapid.T) {
 			pass = rapid.SampledFrom(wrongs).Draw(t, "wrongPass")
 		}
 		work := cloneTx(unsigned)
-		out, err := w.env.W.SignRawTx([]byte(pass), flagName, work)
+		var out []byte
+		var err error
+		if rapid.IntRange(0, 2).Draw(t, "viaAPI") == 0 {
+			// the same request through the API handler (hex in, hex out; an empty flag means ALL)
+			raw, _ := work.Bytes(wire.Packet)
+			fl := flagName
+			if fl == "ALL" && rapid.Bool().Draw(t, "emptyFlag") {
+				fl = ""
+			}
+			var r *pb.SignRawTransactionResponse
+			r, err = w.apiSrv(t).SignRawTransaction(bg, &pb.SignRawTransactionRequest{RawTx: hex.EncodeToString(raw), Flags: fl, Passphrase: pass})
+			if err == nil {
+				if !r.Complete {
+					t.Fatalf("API SignRawTransaction succeeded but reports the transaction incomplete")
+				}
+				if out, err = hex.DecodeString(r.Hex); err != nil {
+					t.Fatalf("API SignRawTransaction returned undecodable hex: %v", err)
+				}
+			} else if r != nil {
+				t.Fatalf("API SignRawTransaction returned an error and a response (%d hex chars)", len(r.Hex))
+			}
+			w.flag("via-api")
+		} else {
+			out, err = w.env.W.SignRawTx([]byte(pass), flagName, work)
+		}
 		if !useRight {
 			pattern = append(pattern, "wrong")
 			sawFail = true
